@@ -351,7 +351,7 @@ def name_value_composers(ctx, report, rule='C18.R4'):
         def composed_bytes(self):
             return self.text.encode('ascii')
 
-    def hook(n, ev):
+    def extra(n, ev):
         if ast.unparse(n.func) == 'ComposerText':
             return Composer()
         if ast.unparse(n.func) == 'len' and n.args:
@@ -366,12 +366,17 @@ def name_value_composers(ctx, report, rule='C18.R4'):
     fp, fl = pair.resolve('compose'), lst.resolve('compose')
     report.touch(fp)
     report.touch(fl)
+    from ..miniexec import class_call_hook
+    # class level constants and helper methods of the two classes resolve through their class chains
+    hook_p, hook_l = class_call_hook(pair, extra, model), class_call_hook(lst, extra, model)
+    names_p, names_l = hook_p.name_hook_for(fp.module, None), hook_l.name_hook_for(fl.module, None)
     cases = [(None, False, b'key'), ('', False, b'key='), ('v', False, b'key=v'), ('a b', True, b'key="a b"'), ('', True, b'key=""'), (None, True, b'key')]
     try:
         for value, quoted, want in cases:
             report.count(rule)
             me = Obj(name='key', value=value, quoted=quoted, get_separator=lambda: '=')
-            got = Evaluator({'self': me}, hook, None).function(fp.node)
+            me._repo_class = pair
+            got = Evaluator({'self': me}, hook_p, names_p).function(fp.node)
             if bytes(got) != want:
                 report.add(rule, '%s@value[%s]' % (fp.construct, 'absent' if value is None else ('empty' if value == '' else 'present')),
                            'a pair with value %r%s is composed as %r, the grammar (and the parser) expect %r' % (value, ' (quoted)' if quoted else '', bytes(got), want))
@@ -379,7 +384,8 @@ def name_value_composers(ctx, report, rule='C18.R4'):
             for values, want in (([('a', None)], 'a'), ([('a', '')], 'a='), ([('a', '1'), ('b', None), ('c', '')], 'a=1%s b%s c=' % (sep, sep)), ([], '')):
                 report.count(rule)
                 me = Obj(value=collections.OrderedDict(values), get_separator=lambda sep=sep: sep)
-                got = Evaluator({'self': me}, hook, None).function(fl.node)
+                me._repo_class = lst
+                got = Evaluator({'self': me}, hook_l, names_l).function(fl.node)
                 if bytes(got) != want.encode('ascii'):
                     kinds = [('absent' if v is None else 'empty' if v == '' else 'present') for _, v in values]
                     report.add(rule, '%s@value[%s]' % (fl.construct, '/'.join(sorted(set(kinds))) or 'none'),
